@@ -1,26 +1,66 @@
 (* C18 - source lifecycle: one polling loop at a time, nothing new after stop, from_iterable exact.
    Statements restated from Ext/SourceLifeProofs.v; all quantify over ALL histories of start / stop / consumer
-   completion / time advance.  s_init true = the repaired code, s_init false = the code as found. *)
+   completion / time advance / back-to-back calls inside one loop callback (SMulti), and over the consumer's
+   reaction `on` (Some v = the consumer calls stop() from inside its callback when it is handed v).
+   s_init true = the repaired code, s_init false = the code as found.
+   `quiet a` = the action cannot leave a stopped source started: not a start, and not back-to-back calls whose
+   last call is start (C18_quiet_spec). *)
 From Coq Require Import List ZArith Bool Arith.
 From SZ Require Import Ext.SourceLife.
 From SZ Require Import Ext.SourceLifeProofs.
 Import ListNotations.
 
-Theorem C18_one_loop : forall (k : skind) (sync : bool) (acts : list sact) (s : sst) (outs : list (list (Z * Z))), s_run (s_init true k sync) acts = (s, outs) -> length (ss_loops s) <= 1.
+Theorem C18_one_loop : forall (k : skind) (sync : bool) (on : option Z) (acts : list sact) (s : sst) (outs : list (list (Z * Z))), s_run (s_init true k sync on) acts = (s, outs) -> length (ss_loops s) <= 1.
 Proof. exact (@one_loop). Qed.
 Print Assumptions C18_one_loop.
 
-Theorem C18_one_loop_refuted : exists (k : skind) (sync : bool) (acts : list sact) (s : sst) (outs : list (list (Z * Z))), s_run (s_init false k sync) acts = (s, outs) /\ length (ss_loops s) = 2.
+Theorem C18_one_loop_refuted : exists (k : skind) (sync : bool) (on : option Z) (acts : list sact) (s : sst) (outs : list (list (Z * Z))), s_run (s_init false k sync on) acts = (s, outs) /\ length (ss_loops s) = 2.
 Proof. exact (@one_loop_refuted). Qed.
 Print Assumptions C18_one_loop_refuted.
 
-Theorem C18_no_new_cycle_after_stop : forall s : sst, reachable s -> ss_stopped s = true -> forall a : sact, a <> SStart -> snd (s_step s a) = [].
+Theorem C18_one_loop_refuted_back_to_back : exists (k : skind) (sync : bool) (on : option Z) (s : sst) (outs : list (list (Z * Z))), s_run (s_init false k sync on) [SMulti [CStart; CStop; CStart]] = (s, outs) /\ length (ss_loops s) = 2.
+Proof. exact (@one_loop_refuted_back_to_back). Qed.
+Print Assumptions C18_one_loop_refuted_back_to_back.
+
+Theorem C18_no_new_cycle_after_stop : forall s : sst, reachable s -> ss_stopped s = true -> forall a : sact, quiet a = true -> snd (s_step s a) = [].
 Proof. exact (@no_new_cycle_after_stop). Qed.
 Print Assumptions C18_no_new_cycle_after_stop.
 
-Theorem C18_no_new_cycle_after_stop_any : forall s : sst, ss_stopped s = true -> forall a : sact, a <> SStart -> snd (s_step s a) = [] /\ ss_stopped (fst (s_step s a)) = true.
+Theorem C18_no_new_cycle_after_stop_any : forall s : sst, ss_stopped s = true -> forall a : sact, quiet a = true -> snd (s_step s a) = [] /\ ss_stopped (fst (s_step s a)) = true.
 Proof. exact (@no_new_cycle_after_stop_any). Qed.
 Print Assumptions C18_no_new_cycle_after_stop_any.
+
+Theorem C18_quiet_spec : forall a : sact, quiet a = true <-> a <> SStart /\ (forall calls : list lcall, a = SMulti calls -> last calls CStop = CStop).
+Proof. exact (@quiet_spec). Qed.
+Print Assumptions C18_quiet_spec.
+
+Theorem C18_no_new_cycle_after_stop_literal_refuted : exists (s : sst) (a : sact), reachable s /\ ss_stopped s = true /\ a <> SStart /\ snd (s_step s a) <> [].
+Proof. exact (@no_new_cycle_after_stop_literal_refuted). Qed.
+Print Assumptions C18_no_new_cycle_after_stop_literal_refuted.
+
+Theorem C18_back_to_back_stop_last_is_silent : forall (s : sst) (pre : list lcall), s_step s (SMulti (pre ++ [CStop])) = (upd s (ss_now s) true (ss_loops s) (ss_count s), []).
+Proof. exact (@back_to_back_stop_last_is_silent). Qed.
+Print Assumptions C18_back_to_back_stop_last_is_silent.
+
+Theorem C18_stop_inside_callback_silences : forall (fx : bool) (k : skind) (sync : bool) (v : Z) (hist : list sact) (a : sact) (cont : list sact) (s0 : sst) (outs0 : list (list (Z * Z))) (s1 : sst) (d : list (Z * Z)) (s2 : sst) (outs : list (list (Z * Z))), s_run (s_init fx k sync (Some v)) hist = (s0, outs0) -> s_step s0 a = (s1, d) -> In v (map snd d) -> Forall (fun a0 : sact => quiet a0 = true) cont -> s_run s1 cont = (s2, outs) -> (exists (pre : list (Z * Z)) (t : Z), d = pre ++ [(t, v)] /\ ~ In v (map snd pre)) /\ ss_stopped s1 = true /\ concat outs = [] /\ ss_stopped s2 = true.
+Proof. exact (@stop_inside_callback_silences). Qed.
+Print Assumptions C18_stop_inside_callback_silences.
+
+Theorem C18_stop_inside_callback_silences_any : forall (s : sst) (v : Z) (a : sact) (s1 : sst) (d : list (Z * Z)) (cont : list sact) (s2 : sst) (outs : list (list (Z * Z))), ss_stop_on s = Some v -> s_step s a = (s1, d) -> In v (map snd d) -> Forall (fun a0 : sact => quiet a0 = true) cont -> s_run s1 cont = (s2, outs) -> (exists (pre : list (Z * Z)) (t : Z), d = pre ++ [(t, v)] /\ ~ In v (map snd pre)) /\ ss_stopped s1 = true /\ concat outs = [] /\ ss_stopped s2 = true.
+Proof. exact (@stop_inside_callback_silences_any). Qed.
+Print Assumptions C18_stop_inside_callback_silences_any.
+
+Theorem C18_multi_single_start : forall s : sst, s_step s (SMulti [CStart]) = s_step s SStart.
+Proof. exact (@multi_single_start). Qed.
+Print Assumptions C18_multi_single_start.
+
+Theorem C18_multi_single_stop : forall s : sst, s_step s (SMulti [CStop]) = s_step s SStop.
+Proof. exact (@multi_single_stop). Qed.
+Print Assumptions C18_multi_single_stop.
+
+Theorem C18_multi_with_live_loop : forall (s : sst) (calls : list lcall), ss_fixed s = true -> ss_loops s <> [] -> s_step s (SMulti calls) = (upd s (ss_now s) (match calls with [] => ss_stopped s | _ :: _ => flag_of (last calls CStop) end) (ss_loops s) (ss_count s), []).
+Proof. exact (@multi_with_live_loop). Qed.
+Print Assumptions C18_multi_with_live_loop.
 
 Theorem C18_start_started_noop : forall s : sst, ss_stopped s = false -> s_step s SStart = (s, []).
 Proof. exact (@start_started_noop). Qed.
@@ -30,35 +70,47 @@ Theorem C18_stop_stopped_noop : forall s : sst, ss_stopped s = true -> s_step s 
 Proof. exact (@stop_stopped_noop). Qed.
 Print Assumptions C18_stop_stopped_noop.
 
-Theorem C18_from_iterable_exact : forall (items : list Z) (sync : bool) (acts : list sact) (s : sst) (outs : list (list (Z * Z))), s_run (s_init true (SIterable items) sync) acts = (s, outs) -> map snd (concat outs) = firstn (ss_count s) items /\ ss_count s <= length items.
+Theorem C18_from_iterable_exact : forall (items : list Z) (sync : bool) (on : option Z) (acts : list sact) (s : sst) (outs : list (list (Z * Z))), s_run (s_init true (SIterable items) sync on) acts = (s, outs) -> map snd (concat outs) = firstn (ss_count s) items /\ ss_count s <= length items.
 Proof. exact (@from_iterable_exact). Qed.
 Print Assumptions C18_from_iterable_exact.
 
-Theorem C18_from_iterable_backpressure : forall (items : list Z) (acts : list sact) (s : sst) (outs : list (list (Z * Z))), s_run (s_init true (SIterable items) false) acts = (s, outs) -> Forall (fun l : linst => li_mode l = LEmit) (ss_loops s) /\ length (ss_loops s) <= 1 /\ Forall (fun o : list (Z * Z) => length o <= 1) outs.
+Theorem C18_from_iterable_backpressure : forall (items : list Z) (on : option Z) (acts : list sact) (s : sst) (outs : list (list (Z * Z))), s_run (s_init true (SIterable items) false on) acts = (s, outs) -> Forall (fun l : linst => li_mode l = LEmit) (ss_loops s) /\ length (ss_loops s) <= 1 /\ Forall (fun o : list (Z * Z) => length o <= 1) outs.
 Proof. exact (@from_iterable_backpressure). Qed.
 Print Assumptions C18_from_iterable_backpressure.
 
-Theorem C18_from_iterable_next_only_after_ack : forall (items : list Z) (acts : list sact) (s : sst) (outs : list (list (Z * Z))), s_run (s_init true (SIterable items) false) acts = (s, outs) -> ss_loops s <> [] -> forall a : sact, a <> SAck -> snd (s_step s a) = [].
+Theorem C18_from_iterable_next_only_after_ack : forall (items : list Z) (on : option Z) (acts : list sact) (s : sst) (outs : list (list (Z * Z))), s_run (s_init true (SIterable items) false on) acts = (s, outs) -> ss_loops s <> [] -> forall a : sact, a <> SAck -> snd (s_step s a) = [].
 Proof. exact (@from_iterable_next_only_after_ack). Qed.
 Print Assumptions C18_from_iterable_next_only_after_ack.
 
-Theorem C18_from_iterable_complete : forall (items : list Z) (sync : bool) (acts : list sact) (s : sst) (outs : list (list (Z * Z))), s_run (s_init true (SIterable items) sync) acts = (s, outs) -> ss_count s = length items -> map snd (concat outs) = items.
+Theorem C18_from_iterable_complete : forall (items : list Z) (sync : bool) (on : option Z) (acts : list sact) (s : sst) (outs : list (list (Z * Z))), s_run (s_init true (SIterable items) sync on) acts = (s, outs) -> ss_count s = length items -> map snd (concat outs) = items.
 Proof. exact (@from_iterable_complete). Qed.
 Print Assumptions C18_from_iterable_complete.
 
-Theorem C18_from_iterable_sync_single_start : forall (items : list Z) (s : sst) (outs : list (list (Z * Z))), s_run (s_init true (SIterable items) true) [SStart] = (s, outs) -> map snd (concat outs) = items /\ ss_count s = length items /\ ss_stopped s = true /\ ss_loops s = [].
+Theorem C18_from_iterable_sync_single_start : forall (items : list Z) (s : sst) (outs : list (list (Z * Z))), s_run (s_init true (SIterable items) true None) [SStart] = (s, outs) -> map snd (concat outs) = items /\ ss_count s = length items /\ ss_stopped s = true /\ ss_loops s = [].
 Proof. exact (@from_iterable_sync_single_start). Qed.
 Print Assumptions C18_from_iterable_sync_single_start.
 
-Theorem C18_periodic_values : forall (poll : Z) (sync : bool) (acts : list sact) (s : sst) (outs : list (list (Z * Z))), s_run (s_init true (SPeriodic poll) sync) acts = (s, outs) -> map snd (concat outs) = map Z.of_nat (seq 1 (ss_count s)).
+Theorem C18_from_iterable_complete_sync : forall (items : list Z) (acts : list sact) (s : sst) (outs : list (list (Z * Z))), In SStart acts -> s_run (s_init true (SIterable items) true None) acts = (s, outs) -> map snd (concat outs) = items.
+Proof. exact (@from_iterable_complete_sync). Qed.
+Print Assumptions C18_from_iterable_complete_sync.
+
+Theorem C18_periodic_values : forall (poll : Z) (sync : bool) (on : option Z) (acts : list sact) (s : sst) (outs : list (list (Z * Z))), s_run (s_init true (SPeriodic poll) sync on) acts = (s, outs) -> map snd (concat outs) = map Z.of_nat (seq 1 (ss_count s)).
 Proof. exact (@periodic_values). Qed.
 Print Assumptions C18_periodic_values.
 
-Theorem C18_periodic_spacing : forall (poll : Z) (sync : bool) (acts : list sact) (s : sst) (outs : list (list (Z * Z))), (0 < poll)%Z -> s_run (s_init true (SPeriodic poll) sync) acts = (s, outs) -> spaced poll (map fst (concat outs)) /\ (forall (i : nat) (t1 t2 : Z), nth_error (map fst (concat outs)) i = Some t1 -> nth_error (map fst (concat outs)) (S i) = Some t2 -> (t1 + poll <= t2)%Z).
+Theorem C18_periodic_spacing : forall (poll : Z) (sync : bool) (on : option Z) (acts : list sact) (s : sst) (outs : list (list (Z * Z))), (0 < poll)%Z -> s_run (s_init true (SPeriodic poll) sync on) acts = (s, outs) -> spaced poll (map fst (concat outs)) /\ (forall (i : nat) (t1 t2 : Z), nth_error (map fst (concat outs)) i = Some t1 -> nth_error (map fst (concat outs)) (S i) = Some t2 -> (t1 + poll <= t2)%Z).
 Proof. exact (@periodic_spacing). Qed.
 Print Assumptions C18_periodic_spacing.
 
-Theorem C18_periodic_spacing_asfound_refuted : exists (poll : Z) (sync : bool) (acts : list sact) (s : sst) (outs : list (list (Z * Z))), (0 < poll)%Z /\ s_run (s_init false (SPeriodic poll) sync) acts = (s, outs) /\ ~ spaced poll (map fst (concat outs)).
+Theorem C18_periodic_spacing_asfound_refuted : exists (poll : Z) (sync : bool) (on : option Z) (acts : list sact) (s : sst) (outs : list (list (Z * Z))), (0 < poll)%Z /\ s_run (s_init false (SPeriodic poll) sync on) acts = (s, outs) /\ ~ spaced poll (map fst (concat outs)).
 Proof. exact (@periodic_spacing_asfound_refuted). Qed.
 Print Assumptions C18_periodic_spacing_asfound_refuted.
+
+Example C18_stop_inside_callback_nonvacuous : snd (s_run (s_init true (SPeriodic 3) true (Some 2%Z)) [SStart; SAdv 3; SAdv 3; SAck; SStop; SMulti [CStart; CStop]; SAdv 4; SStart; SAdv 3]) = [[(0, 1)]; [(3, 2)]; []; []; []; []; []; [(10, 3)]; [(13, 4)]]%Z /\ snd (s_run (s_init true (SPeriodic 3) false (Some 1%Z)) [SStart; SAck; SAdv 5; SStart; SAdv 1]) = [[(0, 1)]; []; []; [(5, 2)]; []]%Z /\ snd (s_run (s_init true (SIterable [10; 11; 12; 13]%Z) true (Some 11%Z)) [SStart; SAdv 2; SAck; SMulti [CStart; CStop]; SStart]) = [[(0, 10); (0, 11)]; []; []; []; [(2, 12); (2, 13)]]%Z /\ snd (s_run (s_init true (SIterable [10; 11; 12; 13]%Z) false (Some 11%Z)) [SStart; SAck; SAck; SAdv 2; SMulti [CStop; CStart]; SAck; SAck]) = [[(0, 10)]; [(0, 11)]; []; []; [(2, 12)]; [(2, 13)]; []]%Z /\ (exists (s0 : sst) (outs0 : list (list (Z * Z))) (s1 : sst) (d : list (Z * Z)), s_run (s_init true (SPeriodic 3) true (Some 2%Z)) [SStart] = (s0, outs0) /\ s_step s0 (SAdv 3) = (s1, d) /\ In 2%Z (map snd d) /\ Forall (fun a : sact => quiet a = true) [SAdv 3; SAck; SStop; SMulti [CStart; CStop]; SAdv 4]).
+Proof. exact (@stop_inside_callback_nonvacuous). Qed.
+Print Assumptions C18_stop_inside_callback_nonvacuous.
+
+Example C18_back_to_back_nonvacuous : s_run (s_init true (SPeriodic 3) true None) [SMulti [CStart; CStop]; SAdv 5; SMulti [CStart; CStop; CStart]; SAdv 3; SMulti [CStop; CStart]; SMulti [CStart; CStop]; SAdv 3; SAdv 3] = ({| ss_fixed := true; ss_kind := SPeriodic 3; ss_sync := true; ss_now := 14%Z; ss_stopped := true; ss_loops := []; ss_count := 2; ss_stop_on := None |}, [[]; []; [(5, 1)]; [(8, 2)]; []; []; []; []])%Z /\ snd (s_run (s_init false (SPeriodic 3) true None) [SMulti [CStart; CStop]; SAdv 5; SMulti [CStart; CStop; CStart]; SAdv 3; SMulti [CStop; CStart]; SMulti [CStart; CStop]; SAdv 3; SAdv 3]) = [[]; []; [(5, 1); (5, 2)]; [(8, 3); (8, 4)]; [(8, 5)]; []; []; []]%Z.
+Proof. exact (@back_to_back_nonvacuous). Qed.
+Print Assumptions C18_back_to_back_nonvacuous.
 
